@@ -341,18 +341,21 @@ def run(ck):
         ok = all(u(kwarg(c, k)) == v for k, v in want.items()) and [u(a) for a in c.args] == ['molecule', 'self.selector'] and flow.valid(cond)
     ck.ob('PROV-settings', mod.loc(rmol), ok, 'the numeric settings, the selector and the domain criterion reach apply_rubber_band exactly as configured', key='PROV-settings|passthrough')
     for name, var in (('res_min_dist', 'self.res_min_dist_variable'), ('bond_type', 'self.bond_type_variable')):
-        defs = stmts_with_env(rmol, lambda s_, name=name: isinstance(s_, ast.Assign) and u(s_.targets[0]) == name)
-        good = len(defs) == 2 and u(kwarg(calls[0][0], name)) == name if calls else False
+        good = bool(calls) and u(kwarg(calls[0][0], name)) == name
         if good:
-            plain = [d for d in defs if u(d[0].value) == 'self.' + name and flow.valid(d[1])]
-            fall = [d for d in defs if 'force_field.variables.get(' + var in u(d[0].value)]
-            good = len(plain) == 1 and len(fall) == 1 and plain[0][0].lineno < fall[0][0].lineno
+            # what the local holds at the call, whichever way the choice is spelled (default then override, if/else, conditional expression)
+            table = flow.value_table(rmol, name, lambda s_: s_ is calls[0][1])
+            rows = {t: c_ for c_, t in (table or [])}
+            plain = [c_ for t, c_ in rows.items() if t == 'self.' + name]
+            fall = [c_ for t, c_ in rows.items() if 'force_field.variables.get(' + var in t]
+            good = len(rows) == 2 and len(plain) == 1 and len(fall) == 1
             if good:
                 names = {}
-                for k in flow.atoms_of(fall[0][1]):
+                for k in flow.atoms_of(fall[0]) | flow.atoms_of(plain[0]):
                     if k[0] == 'Is' and set(k[1:]) == {'None', 'self.' + name}:
                         names[k] = 'UNSET'
-                good = flow.equivalent(flow.rename(fall[0][1], names), flow.parse_formula('UNSET'))[0] and len(names) == len(flow.atoms_of(fall[0][1]))
+                good = flow.equivalent(flow.rename(fall[0], names), flow.parse_formula('UNSET'))[0] and len(names) == len(flow.atoms_of(fall[0])) and \
+                    flow.equivalent(flow.rename(plain[0], names), flow.parse_formula('not UNSET'))[0]
         ck.ob('PROV-settings', mod.loc(rmol), good, '{} is the configured value; only when it is None (not merely 0) the force field variable / default is used'.format(name),
               key='PROV-settings|' + name)
     # domain criteria
